@@ -102,9 +102,16 @@ InContext == {<<Neutral(a), Field(k, sp, r, <<"letter", "digit">>), Neutral(b)>>
 TwoFields == {<<Field(k1, "lower", r1, <<"letter", "digit">>), Neutral("plain_a"),
                 Field(k2, "Capitalised", r2, <<"digit", "letter">>)>> :
                  k1 \in {"password", "token"}, k2 \in {"admin_pass", "secret"}, r1 \in Renderings, r2 \in Renderings}
+\* the same key several times in one message, in the same rendering (every occurrence is masked,
+\* the text between them is kept)
+SameKey == {<<Field(k, "lower", r, <<"letter", "digit">>), Neutral("plain_a"), Field(k, "UPPER", r, <<"digit", "letter">>)>> :
+               k \in {"password", "sslkey", "chapsecret"}, r \in Renderings \ DictStyle}
+           \cup {<<Field(k, "lower", r, <<"letter", "digit">>), Neutral("plain_b"), Field(k, "lower", r, <<"digit", "digit">>),
+                  Neutral("plain_a"), Field(k, "digits", r, <<"letter", "letter">>)>> :
+               k \in {"token", "chapsecret"}, r \in Renderings \ DictStyle}
 NoKey == {<<Neutral(a), Neutral(b)>> : a \in NeutralToks, b \in NeutralToks}
 
-Messages == Alone \cup Secrets \cup Glued \cup InContext \cup TwoFields \cup NoKey
+Messages == Alone \cup Secrets \cup Glued \cup InContext \cup TwoFields \cup SameKey \cup NoKey
 
 \* Known limitation of the pinned code (finding F5, see DESIGN.md): after a dict/JSON
 \* style field, any later quote character in the message makes the "wildcard"
